@@ -7,6 +7,7 @@ import SurfProofs.Lemmas.SixelCache
 import SurfProofs.Lemmas.SixelQuant
 import SurfProofs.Lemmas.SixelDraw
 import SurfProofs.Lemmas.SixelNoPanic
+import SurfProofs.Lemmas.SixelSink
 /-!
 # C12 — sixel output decodes to the quantised image, exact when colours fit the palette
 
@@ -424,5 +425,34 @@ example :
     Handler.new.size + ([1, 2, 3] : List UInt8).length
       + total [(8, [4, 5]), (9, [6]), (8, [7, 7, 7])] ≤ Handler.new.cap := by
   simp [Handler.new, total, imageCacheSize, SurfModel.Generated.SixelCache.imageCacheSize]
+
+/-! ## handing the bytes to the sink -/
+
+/-- `C12_handover`.  `drawTo` is `draw` with its output hand-over spelled out: both branches (first draw
+and cache hit) pass their bytes to the sink with `write_all`.  For EVERY handler, image and sink script
+(short writes of any size, `Interrupted`, `Ok(0)`, errors, in any order):
+* what arrives at the sink is a prefix of the bytes `draw` produces;
+* if the call returns `Ok`, everything arrived and the handler is the one `draw` leaves;
+* against a sink that never fails and never answers `Ok(0)` the call returns `Ok` — so a repeated draw
+  delivers exactly the bytes of the first draw however the sink chops them (with `C12_repeat`);
+* a first draw that failed leaves the handler unchanged (nothing is cached). -/
+theorem C12_handover (hd : Handler) (key : Nat) (enc : List UInt8) (script : List Resp) :
+    (∃ k, (hd.drawTo key enc script).1 = (hd.draw key enc).1.take k)
+    ∧ ((hd.drawTo key enc script).2.1 = true →
+        (hd.drawTo key enc script).1 = (hd.draw key enc).1
+          ∧ (hd.drawTo key enc script).2.2.1 = (hd.draw key enc).2)
+    ∧ (SurfProofs.Lemmas.SixelSink.Benign script → (hd.drawTo key enc script).2.1 = true)
+    ∧ (hd.imgs.lookup key = none → (hd.drawTo key enc script).2.1 = false →
+        (hd.drawTo key enc script).2.2.1 = hd) :=
+  ⟨SurfProofs.Lemmas.SixelSink.drawTo_prefix hd key enc script,
+   SurfProofs.Lemmas.SixelSink.drawTo_ok hd key enc script,
+   SurfProofs.Lemmas.SixelSink.drawTo_benign hd key enc script,
+   SurfProofs.Lemmas.SixelSink.drawTo_failed_miss hd key enc script⟩
+
+/-- a benign script: one byte, an interruption, then seven bytes per call -/
+example : SurfProofs.Lemmas.SixelSink.Benign [.accept 1, .interrupted, .accept 7, .accept 7] := by
+  intro r hr
+  simp only [List.mem_cons, List.not_mem_nil, or_false] at hr
+  rcases hr with rfl | rfl | rfl | rfl <;> simp
 
 end SurfProofs.C12
